@@ -102,3 +102,54 @@ impl Sem for Outer {
     }
     std_io!();
 }
+
+/// const generic parameter, array and optional container fields
+#[derive(CanonicalSerialize, CanonicalDeserialize, Debug)]
+pub struct WithConst<const N: usize> {
+    pub a: [u16; N],
+    pub b: Option<Vec<u8>>,
+    pub c: ([bool; N], u8),
+}
+
+impl<const N: usize> Sem for WithConst<N> {
+    const CANONICAL: bool = true;
+    fn gen(g: &mut G<'_>) -> Self {
+        WithConst { a: Sem::gen(g), b: Sem::gen(g), c: Sem::gen(g) }
+    }
+    fn same(&self, o: &Self) -> bool {
+        self.a == o.a && self.b == o.b && self.c == o.c
+    }
+    std_io!();
+}
+
+/// nested tuples three levels deep, a point at the innermost level
+#[derive(CanonicalSerialize, CanonicalDeserialize, Debug)]
+pub struct Deep(pub (u8, (u16, (G1Affine, u32))), pub ((bool,), String));
+
+impl Sem for Deep {
+    fn gen(g: &mut G<'_>) -> Self {
+        Deep(Sem::gen(g), Sem::gen(g))
+    }
+    fn same(&self, o: &Self) -> bool {
+        self.0.same(&o.0) && self.1.same(&o.1)
+    }
+    fn ref_valid(&self, v: bool) -> bool {
+        self.0.ref_valid(v)
+    }
+    std_io!();
+}
+
+/// a tuple struct with a single field
+#[derive(CanonicalSerialize, CanonicalDeserialize, Debug)]
+pub struct Single(pub Vec<u32>);
+
+impl Sem for Single {
+    const CANONICAL: bool = true;
+    fn gen(g: &mut G<'_>) -> Self {
+        Single(Sem::gen(g))
+    }
+    fn same(&self, o: &Self) -> bool {
+        self.0 == o.0
+    }
+    std_io!();
+}
